@@ -70,15 +70,13 @@ pub fn alphabet(m: &FormatModel, o: &OptModel, with_sep: bool) -> Vec<u8> {
     }
     a.push(o.decimal_point);
     a.push(o.exponent);
-    if o.exponent.is_ascii_alphabetic() {
-        a.push(o.exponent ^ 0x20);
-    }
+    // the other-case letter; for punctuation that is not a letter the byte that differs in bit 5 only
+    // ('^' / '~', '@' / '`'): junk that an xor-0x20 case fold takes for the configured character
+    a.push(o.exponent ^ 0x20);
     for c in [m.base_prefix, m.base_suffix] {
         if c != 0 {
             a.push(c);
-            if c.is_ascii_alphabetic() {
-                a.push(c ^ 0x20);
-            }
+            a.push(c ^ 0x20);
         }
     }
     if with_sep && m.digit_separator != 0 {
@@ -410,17 +408,12 @@ fn long_strategy(m: &FormatModel, ty: Ty, o: &OptModel) -> BoxedStrategy<Vec<u8>
             .boxed()
         },
     };
-    let mut structural: Vec<u8> = vec![b'+', b'-', b'0', pt, ec];
-    if ec.is_ascii_alphabetic() {
-        structural.push(ec ^ 0x20);
-    }
+    let mut structural: Vec<u8> = vec![b'+', b'-', b'0', pt, ec, ec ^ 0x20];
     for c in [m.base_prefix, m.base_suffix] {
         if c != 0 {
             structural.push(c);
             structural.push(c);
-            if c.is_ascii_alphabetic() {
-                structural.push(c ^ 0x20);
-            }
+            structural.push(c ^ 0x20);
         }
     }
     structural.extend(gen::boundary_bytes(rx.mant.max(rx.exp)));
